@@ -377,3 +377,105 @@ def random_scenario(rng, max_files=3, max_refs=8, max_sched=3, p_dep=0.25, p_nev
     never = sorted(i for i in range(1, n + 1) if mode != "sched" and rng.random() < p_never)
     unknown = sorted(i for i in range(1, n + 1) if rng.random() < p_unknown)
     return {"files": files, "sched": sched, "deps": deps, "never": never, "unknown": unknown}
+
+
+# ------------------------------------------------------------------ the conformance pass shared by C08 and C09
+def conformance(rep, families, attr_mode, devs, nontrivial, n_random, rng, random_kw=None, shards=None):
+    """(S->I) every scenario TLC enumerates for `families` is loaded with real textX and its outcome compared
+    with the module's (Dev = {} -> pass, a listed deviation -> KNOWN-FINDING, else VIOLATION);
+    (I->S) the provider calls logged during those loads, and during `n_random` bigger seeded-random
+    scenarios, are validated by TLC as behaviours of LoaderResolve (same three-way verdict)."""
+    shards = shards or tlc.NCPU
+    stats = {}
+    all_sc, all_obs, all_imp = [], [], []
+    for fam in families:
+        exp, rs = emit(fam, "", shards)
+        for i, r in enumerate(rs):
+            rep.add_mc(f"MC_LoaderResolve_Emit[{fam}#{i}]", r, ["(scenario and outcome emission)"])
+        dexp = {fid: emit(fam, d, shards)[0] for fid, d in devs.items()}
+        keys = sorted(exp)
+        scs = [exp[k]["sc"] for k in keys]
+        obs = run_many(scs, rep.seed)
+        cnt = dict(scenarios=len(scs), passed=0, known=0, violations=0)
+        for k, sc, o in zip(keys, scs, obs):
+            case = {"kind": "scenario", "sc": sc, "imports": "star", "attr_mode": attr_mode}
+            if o["anomalies"]:
+                rep.violation(dict(case=case, observed=o), "the loader offered a reference the rendering does not "
+                              "explain: " + "; ".join(o["anomalies"][:3]))
+                cnt["violations"] += 1
+                continue
+            v = common.judge(rep, case, observed_outcome(o, attr_mode), expected_outcome(exp[k], attr_mode),
+                             {fid: expected_outcome(t[k], attr_mode) for fid, t in dexp.items()},
+                             nontrivial=nontrivial(sc),
+                             why=f"scenario {common.canon(sc)}: textX gave {common.canon(observed_outcome(o, attr_mode))} "
+                                 f"but LoaderResolve prescribes {common.canon(expected_outcome(exp[k], attr_mode))}")
+            cnt["passed" if v == "pass" else "known" if v == "known" else "violations"] += 1
+        stats[fam] = cnt
+        all_sc += scs
+        all_obs += obs
+        all_imp += ["star"] * len(scs)
+    n_enum = len(all_sc)
+    kw = random_kw or {}
+    rs_sc = [random_scenario(rng, **kw) for _ in range(n_random)]
+    rs_imp = [rng.choice(["star", "chain"]) for _ in range(n_random)]
+    all_sc += rs_sc
+    all_imp += rs_imp
+    all_obs += run_many(rs_sc, rep.seed, rs_imp)
+    traces = [trace_of(sc, o) for sc, o in zip(all_sc, all_obs)]
+    verdicts, rr = validate(traces, "", attr_mode)
+    for i, r in enumerate(rr):
+        rep.add_mc(f"TraceLoaderResolve#{i}", r, ["TraceNext consumes every provider call and reaches the logged outcome"])
+    rejected = [i for i, v in enumerate(verdicts) if not v["accepted"]]
+    alt = {}
+    if rejected:
+        for fid, d in devs.items():
+            v2, _ = validate([traces[i] for i in rejected], d, attr_mode)
+            alt[fid] = {i: v2[j]["accepted"] for j, i in enumerate(rejected)}
+    tcnt = dict(traces=len(traces), enumerated=n_enum, random=n_random, accepted=0, known=0, violations=0)
+    for i, (tr, v) in enumerate(zip(traces, verdicts)):
+        sc = all_sc[i]
+        case = {"kind": "trace", "sc": sc, "imports": all_imp[i], "attr_mode": attr_mode}
+        if all_obs[i]["anomalies"] and i >= n_enum:
+            rep.violation(dict(case=case, observed=all_obs[i]), "; ".join(all_obs[i]["anomalies"][:3]))
+            tcnt["violations"] += 1
+        elif v["accepted"]:
+            rep.passed(dict(sc=sc, calls=[[e["m"], e["r"], e["ans"]] for e in tr["events"][:16]]),
+                       nontrivial=nontrivial(sc) and i >= n_enum)
+            tcnt["accepted"] += 1
+        else:
+            fid = next((f for f, a in alt.items() if a.get(i)), None)
+            if fid:
+                rep.known_finding(fid, case)
+                tcnt["known"] += 1
+            else:
+                rep.violation(dict(case=case, trace=tr), explain_reject(tr, v))
+                tcnt["violations"] += 1
+    stats["traces"] = tcnt
+    return stats
+
+
+def replay_case(path):
+    """Re-run one stored case against the real code and let TLC judge the recorded load again."""
+    with open(path) as f:
+        rec = json.load(f)
+    c = rec["case"]
+    case = c.get("case", c)
+    sc, imports, mode = case["sc"], case.get("imports", "star"), case.get("attr_mode", "seq")
+    work = tlc.scratch("vt-res-")
+    try:
+        obs = run_scenario(sc, int(os.environ.get("VERIF_SEED", "0") or 0), work, imports)
+        names = names_for(sc, int(os.environ.get("VERIF_SEED", "0") or 0))
+        for fn, text in render(sc, names, imports)[0]:
+            print(f"--- {fn}\n{text}", end="")
+    finally:
+        shutil.rmtree(work, ignore_errors=True)
+    print("scenario :", common.canon(sc))
+    print("calls    :", [(e["m"], e["r"], e["attempt"], e["ans"]) for e in obs["calls"]])
+    print("observed :", common.canon(observed_outcome(obs, mode)), obs["anomalies"] or "")
+    tr = trace_of(sc, obs)
+    v, _ = validate([tr], "", mode)
+    if v[0]["accepted"] and not obs["anomalies"]:
+        print("LoaderResolve (Dev = {}) accepts this load")
+        return 0
+    print("LoaderResolve (Dev = {}) rejects this load:", explain_reject(tr, v[0]))
+    return 1
